@@ -28,6 +28,9 @@ def run_shard(ctx, spec):
     rnd = random.Random(ctx.seed * 3571 + spec['i'])
     mon.rnd = random.Random(ctx.seed * 13 + spec['i'])
     ex = hj.Explorer(mon, rnd)
+    hj.KW['on'] = bool(spec.get('kw'))
+    if spec.get('kw'):
+        ctx.count('eval.shards-with-start-list-details')
     if spec['w'] == 'bfs':
         ex.bfs(spec['nj'], spec['reg'], spec['jo'], part=spec['i'], nparts=spec['n'], split_depth=spec.get('split', 3),
                max_states=spec.get('max_states'))
@@ -58,12 +61,15 @@ def shards(tier, seed):
         s += [{'w': 'walk', 'n': 60, 'i': 40 + i, 'every': 3} for i in range(4)]
         s += [{'w': 'complete', 'n': 150, 'i': 60 + i, 'every': 2} for i in range(4)]
         s += [{'w': 'jumpoff', 'n': 200, 'i': 80 + i, 'every': 2} for i in range(4)]
+        s += [{'w': 'complete', 'n': 150, 'i': 90, 'every': 2, 'kw': True}, {'w': 'walk', 'n': 60, 'i': 91, 'every': 3, 'kw': True},
+              {'w': 'jumpoff', 'n': 150, 'i': 92, 'every': 2, 'kw': True}]
         return s
     s = [{'w': 'bfs', 'nj': 2, 'reg': 2, 'jo': 2, 'i': i, 'n': 48, 'split': 4, 'every': 4, 'max_states': 60000} for i in range(48)]
     s += [{'w': 'bfs', 'nj': 3, 'reg': 2, 'jo': 1, 'i': i, 'n': 32, 'split': 4, 'every': 10, 'max_states': 120000} for i in range(32)]
     s += [{'w': 'walk', 'n': 900, 'i': 400 + i, 'every': 2} for i in range(8)]
     s += [{'w': 'complete', 'n': 2500, 'i': 600 + i, 'every': 1} for i in range(8)]
     s += [{'w': 'jumpoff', 'n': 2500, 'i': 700 + i, 'every': 2} for i in range(8)]
+    s += [{'w': ('complete', 'walk', 'jumpoff')[i % 3], 'n': 900, 'i': 800 + i, 'every': 2, 'kw': True} for i in range(6)]
     return s
 
 
@@ -72,13 +78,15 @@ def replay(ctx, cases):
     mon = hj.Monitor(ctx, rules=False, final=False, replay=True, replay_every=10 ** 9)
     from decimal import Decimal
     for c in cases:
+        hj.KW['on'] = bool(c.get('jumper_kwargs'))
+        hj.KW['bibs'] = []
         comp = mon.H()
         for m, a in c['history']:
             try:
                 if m == 'read':
                     hj.READERS[a](comp)
                 elif m == 'add_jumper':
-                    comp.add_jumper(bib=a)
+                    hj.add(comp, a)
                 elif m == 'set_bar_height':
                     comp.set_bar_height(Decimal(a))
                 else:
